@@ -147,6 +147,79 @@ theorem dec2x_out_of_range (mask b : Nat) (n : Int) (h : n < -(mask : Int) ∨ (
   have : ¬ (-(mask : Int) ≤ n ∧ n < mask) := by omega
   simp [this]
 
+/-! ### with `places` -/
+
+theorem valOf_zero : valOf '0' = 0 := by decide
+
+theorem ofBase_pad (b k : Nat) (s : List Char) : ofBase b (List.replicate k '0' ++ s) = ofBase b s := by
+  unfold ofBase
+  rw [List.foldl_append]
+  congr 1
+  induction k with
+  | zero => rfl
+  | succ k ih => simp [List.replicate_succ, List.foldl_cons, valOf_zero, ih]
+
+theorem validDigits_pad (b k : Nat) (hb : 0 < b) (s : List Char) (h : validDigits b s = true) :
+    validDigits b (List.replicate k '0' ++ s) = true := by
+  unfold validDigits at *
+  simp only [Bool.and_eq_true, Bool.not_eq_true', List.all_eq_true, decide_eq_true_eq, List.isEmpty_eq_false_iff] at h ⊢
+  refine ⟨?_, ?_⟩
+  · intro hnil
+    have := List.append_eq_nil_iff.mp hnil
+    exact h.1 this.2
+  · intro c hc
+    rcases List.mem_append.mp hc with hc | hc
+    · rw [List.eq_of_mem_replicate hc, valOf_zero]; exact hb
+    · exact h.2 c hc
+
+/-- **whatever `places` adds is read back as the same number**: every text `DEC2BIN/OCT/HEX(n, places)` returns,
+for every `n` and every `places`, converts back to `n` — padding never reaches the sign digit -/
+theorem x2dec_dec2xP (mask b : Nat) (hmb : (b, mask) ∈ Generated.xmask) (n places : Int) (s : List Char)
+    (h : dec2xP mask b n places = .ok s) : x2dec mask b s = .ok n := by
+  have hb : 2 ≤ b ∧ b ≤ 16 ∧ 2 * mask = b ^ 10 ∧ 0 < mask := by
+    rw [masks] at hmb
+    simp only [List.mem_cons, Prod.mk.injEq, List.not_mem_nil, or_false] at hmb
+    rcases hmb with ⟨rfl, rfl⟩ | ⟨rfl, rfl⟩ | ⟨rfl, rfl⟩ <;> decide
+  unfold dec2xP at h
+  by_cases hr : -(mask : Int) ≤ n ∧ n < mask
+  · obtain ⟨s0, hs0, hback⟩ := x2dec_dec2x mask b hmb n hr.1 hr.2
+    rw [hs0] at h
+    simp only at h
+    by_cases hp : places ≤ 10 ∧ (if n < 0 then 0 else (s0.length : Int)) ≤ places
+    · rw [if_pos hp] at h
+      injection h with h
+      subst h
+      -- the unpadded text has valid digits and at most ten of them
+      unfold x2dec at hback ⊢
+      by_cases hl : s0.length > 10
+      · simp [hl] at hback
+      · simp only [hl, if_false] at hback
+        by_cases hv : validDigits b s0 = true
+        · simp only [hv, if_true] at hback
+          have hlen : ¬ (List.replicate (places.toNat - s0.length) '0' ++ s0).length > 10 := by
+            simp only [List.length_append, List.length_replicate]; omega
+          simp only [hlen, if_false, validDigits_pad b _ (by omega) s0 hv, if_true, ofBase_pad]
+          exact hback
+        · simp [hv] at hback
+    · rw [if_neg hp] at h
+      cases h
+  · have : dec2x mask b n = .error .num := dec2x_out_of_range mask b n (by omega)
+    rw [this] at h
+    cases h
+
+/-- a negative number keeps its digits for every admissible `places` -/
+theorem dec2xP_negative (mask b : Nat) (n places : Int) (s : List Char) (hn : n < 0)
+    (hs : dec2x mask b n = .ok s) (hlen : s.length = 10) (hp : 0 ≤ places ∧ places ≤ 10) :
+    dec2xP mask b n places = .ok s := by
+  unfold dec2xP
+  rw [hs]
+  have : places.toNat - s.length = 0 := by omega
+  simp [hn, hp, this]
+
+example : dec2xP (2 ^ 39) 16 10 4 = .ok "000A".toList := by decide +kernel
+example : dec2xP (2 ^ 39) 16 (-1) 3 = .ok "FFFFFFFFFF".toList := by decide +kernel
+example : dec2xP (2 ^ 9) 2 5 2 = .error .num := by decide +kernel
+
 /-! ### ROMAN / ARABIC over the generated tables -/
 
 def romanOK (tbl : List (Nat × String)) (n : Nat) : Bool :=
